@@ -127,6 +127,37 @@ def run_lattice():
                             w = next((c for c in rng_ if c not in vals), None)
                             if w is not None and not (vmin is not None and vmax is not None and all(c in vals for c in range(vmin, vmax + 1))):
                                 fails.append({"kind": "lattice_unsound_prune", "func": "filter_not_in", "args": [list(vals), vmin, vmax], "witness": w})
+    # --- instants: the bounds are numpy datetime64 of the column's unit; the constant names the same instant in every form a caller
+    #     may write it (datetime, Timestamp naive / aware, datetime64 of another unit, ISO text), alone or in any kind of collection
+    import datetime
+    import numpy as np
+    import pandas as pd
+    day = 86400
+    reps = {"datetime": lambda sec: datetime.datetime(1970, 1, 1) + datetime.timedelta(seconds=sec),
+            "Timestamp": lambda sec: pd.Timestamp(sec, unit="s"),
+            "Timestamp_utc": lambda sec: pd.Timestamp(sec, unit="s", tz="UTC"),
+            "datetime_utc": lambda sec: datetime.datetime(1970, 1, 1, tzinfo=datetime.timezone.utc) + datetime.timedelta(seconds=sec),
+            "datetime64_s": lambda sec: np.datetime64(sec, "s"),
+            "datetime64_ns": lambda sec: np.datetime64(sec * 10 ** 9, "ns")}
+    for unit in ("ns", "us", "ms", "s"):
+        mult = {"ns": 10 ** 9, "us": 10 ** 6, "ms": 10 ** 3, "s": 1}[unit]
+        b = lambda sec: np.datetime64(sec * mult, unit)
+        for rname, rep in reps.items():
+            for d in (0, 1, 2):
+                for lo, hi in ((d, d), (0, 2), (d, 3)):
+                    for cname, cont in (("scalar", None), ("list", list), ("tuple", tuple), ("set", set), ("frozenset", frozenset)):
+                        n += 1
+                        try:
+                            if cont is None:
+                                pruned = A.filter_val("==", rep(d * day), b(lo * day), b(hi * day))
+                            else:
+                                pruned = A.filter_val("in", cont([rep(d * day), rep(9 * day)]), b(lo * day), b(hi * day))
+                        except Exception as e:
+                            # a refusal loses nothing
+                            continue
+                        if pruned:
+                            fails.append({"kind": "lattice_unsound_prune", "func": "filter_val", "args": ["in" if cont else "==", "%s of day %d as %s" % (cname, d, rname),
+                                                                                                           "datetime64[%s] day %d" % (unit, lo), "day %d" % hi], "witness": "day %d" % d})
     return n, fails
 
 
